@@ -1022,6 +1022,12 @@ impl<'info> Evaluator {
                 prog_args,
             ))))
         } else if call.name == "com".as_bytes() {
+            if arguments_to_convert.is_empty() {
+                return Err(CompileErr(
+                    call.loc.clone(),
+                    "com takes an expression to compile".to_string(),
+                ));
+            }
             let to_compile = bind_let_names_for_com(
                 &call.loc,
                 prog_args.clone(),
